@@ -115,6 +115,15 @@ def ir_cases(rng, tier, only_wf=True):
                     if ret == 2 and (recv == 2 or args):
                         continue
                     cases.append("1 1 | %s" % " ".join(map(str, method_row(recv, flags, ret, 2, args))))
+    # a doc comment and an unrelated attribute beside the method's own attributes (receiver field +8) change nothing: in particular
+    # #[no_int_result] / #[int_result] keep their meaning
+    for ti in (0, 1):
+        for recv in (0, 1, 2):
+            for im in (0, 1, 2):
+                for ret in (6, 7, 11, 12):
+                    if wf(ti, im, ret):
+                        for args in ([], [(1, 0), (4, 3)]):
+                            cases.append("1 %d | %s" % (ti, " ".join(map(str, method_row(recv + 8, im, ret, 2, args)))))
     # #[vtbl_only] methods (receiver field +4) keep their declaration-order slot and wrapper; only the forwarding method is absent
     for pos in range(3):
         for recv in (0, 1):
@@ -134,6 +143,8 @@ def ir_cases(rng, tier, only_wf=True):
             args = [(rng.below(NARG_SHAPES), rng.below(9)) for _ in range(rng.range(0, 4))]
             if rng.chance(1, 4):
                 im += rng.choice([4, 8, 12])
+            if rng.chance(1, 4):
+                recv += 8
             rows.append(method_row(recv, im, ret, rng.below(9), args))
         cases.append("1 %d%s | %s" % (ti, " 1" if rng.chance(1, 3) else "", " ; ".join(" ".join(map(str, r)) for r in rows)))
     return cases, {"ir_exhaustive_single_method": n_ex, "ir_random_multi_method": nrand, "of_which_in_generic_traits": sum(1 for c in cases if c.split("|")[0].split()[2:3] == ["1"])}
@@ -187,7 +198,7 @@ def grp_cases(rng, tier, mid=4):
 REF_OPS = [[0, 5, -3], [6, 2], [6, -1], [6, 5], [7, 4], [7, 3], [7, -1], [8, 200], [8, 7], [9, 7], [10, 0], [10, 1], [10, 3], [12, 255, 70000, -5], [13], [14],
            [16, 5], [16, -2], [18, 4], [18, -9], [19, 0], [19, 1], [19, 13], [19, -7], [19, 65535], [20, 3], [20, -1], [21, 9],
            [22, 4], [22, 7], [23, 21], [24], [25, 2], [25, 0]]
-MUT_OPS = [[1, 5], [1, 0], [1, 24], [2, 3], [2, 0], [3, 4], [3, 0], [4, 6], [4, 0], [5, 0], [5, 1], [5, 2], [5, 3], [5, 4], [11, 0], [11, 4], [15], [17, 2], [17, 3]]
+MUT_OPS = [[1, 5], [1, 0], [1, 24], [2, 3], [2, 0], [3, 4], [3, 0], [4, 6], [4, 0], [5, 0], [5, 1], [5, 2], [5, 3], [5, 4], [5, 5], [5, 6], [5, 7], [5, 8], [11, 0], [11, 4], [15], [17, 2], [17, 3]]
 
 
 def shapes_cases(rng, tier):
@@ -208,7 +219,7 @@ def shapes_cases(rng, tier):
                 if o[0] in (1, 2, 3, 4, 11):
                     o[1] = abs(o[1]) % 25
                 if o[0] == 5:
-                    o[1] = abs(o[1]) % 5
+                    o[1] = abs(o[1]) % 9
             ops.append(o)
         cases.append("101 %d %d | %s" % (which, rng.choice(kinds), " ; ".join(" ".join(map(str, o)) for o in ops)))
     return cases, {"shape_histories": len(cases)}
